@@ -87,8 +87,20 @@ uint32_t cop_serialize_value(const NanoValue *val, uint8_t *buf, uint32_t buf_si
     return pos;
 }
 
+/* Values arrive from another process: lengths and counts are checked against the
+ * bytes that are actually there (without wrapping), and nesting is bounded. */
+#define COP_MAX_VALUE_DEPTH 64
+
+static uint32_t cop_deserialize_value_at(const uint8_t *buf, uint32_t buf_size,
+                                         NanoValue *out, VmHeap *heap, int depth);
+
 uint32_t cop_deserialize_value(const uint8_t *buf, uint32_t buf_size,
                                NanoValue *out, VmHeap *heap) {
+    return cop_deserialize_value_at(buf, buf_size, out, heap, 0);
+}
+
+static uint32_t cop_deserialize_value_at(const uint8_t *buf, uint32_t buf_size,
+                                         NanoValue *out, VmHeap *heap, int depth) {
     if (buf_size < 1) return 0;
     uint8_t tag = buf[0];
     uint32_t pos = 1;
@@ -121,7 +133,7 @@ uint32_t cop_deserialize_value(const uint8_t *buf, uint32_t buf_size,
         uint32_t len;
         memcpy(&len, buf + pos, 4);
         pos += 4;
-        if (pos + len > buf_size) return 0;
+        if (len > buf_size - pos) return 0;
         VmString *s = vm_string_new(heap, (const char *)(buf + pos), len);
         pos += len;
         *out = val_string(s);
@@ -144,11 +156,13 @@ uint32_t cop_deserialize_value(const uint8_t *buf, uint32_t buf_size,
         uint32_t count;
         memcpy(&count, buf + pos, 4);
         pos += 4;
+        /* every element occupies at least its tag byte */
+        if (count > buf_size - pos || depth >= COP_MAX_VALUE_DEPTH) { *out = val_void(); return 0; }
         VmArray *arr = vm_array_new(heap, etype, count > 0 ? count : 4);
         for (uint32_t i = 0; i < count; i++) {
             NanoValue elem;
-            uint32_t n = cop_deserialize_value(buf + pos, buf_size - pos,
-                                                &elem, heap);
+            uint32_t n = cop_deserialize_value_at(buf + pos, buf_size - pos,
+                                                   &elem, heap, depth + 1);
             if (n == 0) { *out = val_void(); return 0; }
             pos += n;
             vm_array_push(arr, elem);
